@@ -1257,3 +1257,41 @@ def check_chomsky_phases(ctx, rep, funcs, rule=RULE + '.M28'):
         rep.undecided(rule, f0, 'def ' + f0.name, 'outside the evaluator: {}'.format(e))
         return
     rep.holds(rule, funcs[-1], 'def cfg_to_chomsky_in_place (pipeline)', 'on {} phase runs (eight model grammars with epsilon rules, nullable chains, unit cycles, long right-hand sides, terminals inside them, a variable that already has the tail of a long rule among its alternatives; two iteration orders of sets) every phase keeps the words up to length 3 and the declared variables, and the final grammar is in Chomsky normal form'.format(cases))
+
+
+# ---- the accepts / rejects checker on a model DFA ------------------------------------------------------------------------------------
+
+def check_accepts_rejects_checker(ctx, rep, f, rule='R-FEEDBACK.K12'):
+    """check_automaton_accepts_rejects on a model DFA (even number of a's) and word lists that contain the empty word, written
+    as the epsilon sign and as an underscore: OK is printed exactly when every word of the first list is accepted and every
+    word of the second list is rejected.  The lists are chosen so that the ONLY wrong word is the empty one, the first, the
+    last, or one among right ones."""
+    spec = _C_DFAS['even a']
+    lang = _dfa_lang(_mk(*spec), 4)
+    lists = ['', 'ε', '_', 'a', 'aa', 'b', 'ε aa', 'ε a', 'a ε', 'aa ab', 'aa bab aba', 'a ab', 'a ε b', 'b a aa', '_ b']
+    cases = 0
+    try:
+        for acc in lists:
+            for rej in lists:
+                out = []
+
+                def pr(interp, args, kwargs, out=out):
+                    out.append(' '.join(str(a) for a in args))
+                    return None
+                it = _interp(ctx, 'asc', stubs={'print': pr}, classes={'DFA': _dfa_class}, max_steps=400000)
+                it.superclasses = {k: ('Regexp',) for k in ('Zero', 'One', 'Symbol', 'Iteration', 'Sum', 'Concat')}
+                ok, _ = _run(rule, rep, f, lambda: it.call(f, [_mk(*spec), acc, rej]), 'for the lists {!r} / {!r}'.format(acc, rej))
+                if not ok:
+                    return
+                cases += 1
+                words = lambda s: {'' if w in ('ε', '_') else w for w in s.split()}     # noqa: E731
+                right = all(w in lang for w in words(acc)) and all(w not in lang for w in words(rej))
+                said_ok = any(o.strip() == 'OK' for o in out)
+                if said_ok != right:
+                    rep.violates(rule, f, 'def ' + f.name, 'for a DFA accepting the words with an even number of a\'s, the list {!r} of words to accept and {!r} of words to reject, the verdict OK is {} although the DFA {}'.format(
+                        acc, rej, 'printed' if said_ok else 'not printed', 'is wrong on one of them (the empty word counts)' if not right else 'is right on all of them'))
+                    return
+    except (Unsupported, RecursionError) as e:
+        rep.undecided(rule, f, 'def ' + f.name, 'outside the evaluator: {}'.format(e))
+        return
+    rep.holds(rule, f, 'def ' + f.name, 'on {} pairs of word lists (the empty word written in both ways, alone, first, last and among others) OK is printed exactly when the model DFA accepts every word of the first list and rejects every word of the second'.format(cases))
